@@ -87,7 +87,7 @@ def run(prop: str, tier: str) -> int:
         res.sample({"universe": fam, "keywords": len(uni["kws"]), "data": len(uni["data"])})
         # beyond the bound: punctuation, spaces, digits-only keywords, prefixes of one another, longer data
         rng = drivers.rng_for("kw")
-        alpha = b"aAbBzZ09 -_.$\xe9\xc9\n"
+        alpha = b"aAbBzZ09 -_.$#;\xe9\xc9\n"
         for i in range(300 if tier == "quick" else 5000):
             kws = sorted({bytes(rng.choice(alpha) for _ in range(rng.randint(1, 4))) for _ in range(rng.randint(1, 6))} - {b"\n", b""})
             kws = [k for k in kws if b"\n" not in k]       # (a line of blanks only is a keyword like any other)
